@@ -188,6 +188,7 @@ func genC06(cfg runCfg, e *emitter, rng *rand.Rand) {
 func runUndoHistories(cfg runCfg, e *emitter, rng *rand.Rand, nHist int) {
 	for hI := 0; hI < nHist; hI++ {
 		e.line("CASE undo%d", hI)
+		mmReset()
 		e.line("RESET")
 		rf := &refForest{}
 		pol := u.NewAccumulator()
@@ -238,7 +239,7 @@ func runUndoHistories(cfg runCfg, e *emitter, rng *rand.Rand, nHist int) {
 				m := m
 				if !deadImpl[mapName(m)] {
 					guarded(e, "Modify."+mapName(m), func() {
-						if err := m.Modify(toLeaves(adds), dels, proof); err != nil {
+						if err := mmModify(e, m, toLeaves(adds), dels, proof); err != nil {
 							e.hfail("Modify."+mapName(m), "%v", err)
 							deadImpl[mapName(m)] = true
 						}
@@ -252,13 +253,13 @@ func runUndoHistories(cfg runCfg, e *emitter, rng *rand.Rand, nHist int) {
 				}
 				guarded(e, "Modify."+mapName(pi.m), func() {
 					if len(dels) > 0 {
-						if err := pi.m.Verify(dels, proof, true); err != nil {
+						if err := mmVerify(e, pi.m, dels, proof); err != nil {
 							e.hfail("VerifyRemember."+mapName(pi.m), "%v", err)
 							deadImpl[mapName(pi.m)] = true
 							return
 						}
 					}
-					if err := pi.m.Modify(leaves, dels, proof); err != nil {
+					if err := mmModify(e, pi.m, leaves, dels, proof); err != nil {
 						e.hfail("Modify."+mapName(pi.m), "%v", err)
 						deadImpl[mapName(pi.m)] = true
 						return
@@ -313,7 +314,13 @@ func runUndoHistories(cfg runCfg, e *emitter, rng *rand.Rand, nHist int) {
 							proof = u.Proof{Targets: append([]uint64{}, rec.proof.Targets...)}
 							e.count("undo_targets_only")
 						}
-						if err := p.Undo(uint64(len(rec.adds)), proof, rec.dels, rec.prevRoots); err != nil {
+						var err error
+						if mp, ok := p.(*u.MapPollard); ok {
+							err = mmUndo(e, mp, uint64(len(rec.adds)), proof, rec.dels, rec.prevRoots)
+						} else {
+							err = p.Undo(uint64(len(rec.adds)), proof, rec.dels, rec.prevRoots)
+						}
+						if err != nil {
 							e.hfail("Undo."+label, "depth %d: %v", i, err)
 							deadImpl[label] = true
 						}
